@@ -67,7 +67,28 @@ def gen_tracers(rng, which, fancy=True):
         T['QSO'] = dict(logM_cut=float(rng.uniform(12.0, 12.8)), kappa=float(rng.uniform(0.5, 1.5)), sigma=float(rng.uniform(0.3, 1.0)), logM1=float(rng.uniform(14.5, 15.5)), alpha=float(rng.uniform(0.6, 1.2)),
                         alpha_c=f(0, 0.5), alpha_s=float(rng.uniform(0.6, 1.4)), s=f(-0.5, 0.5), s_v=f(-0.5, 0.5), s_p=f(-0.3, 0.3), s_r=f(-0.3, 0.3),
                         Acent=f(-0.5, 0.5), Asat=f(-0.5, 0.5), Bcent=f(-0.3, 0.3), Bsat=f(-0.3, 0.3), ic=float(rng.choice([1.0, 0.7])))
+    if fancy:
+        # redshift-evolving thresholds (gen_gals: logM += logM_pr * (a(z) - a(z_pivot)))
+        for t in T.values():
+            if rng.random() < 0.5:
+                t.update(z_pivot=float(rng.choice([0.8, 0.2, 0.5])), logM_cut_pr=float(rng.uniform(-1, 1)), logM1_pr=float(rng.uniform(-1, 1)))
     return T
+
+
+def evolved(tracers, z):
+    """tracer dicts with the documented z-evolution applied (what gen_gals hands to the kernels)."""
+    out = {}
+    for t, p in tracers.items():
+        q = dict(p)
+        da = 1.0 / (1 + z) - 1.0 / (1 + p.get('z_pivot', z))
+        q['logM_cut'] = p['logM_cut'] + p.get('logM_cut_pr', 0.0) * da
+        q['logM1'] = p['logM1'] + p.get('logM1_pr', 0.0) * da
+        if t == 'ELG':
+            # conformity defaults refer to the evolved logM1 (set after the shift in gen_gals)
+            q.setdefault('logM1_EE', q['logM1'])
+            q.setdefault('logM1_EL', q['logM1'])
+        out[t] = q
+    return out
 
 
 def _vec(pyf):
@@ -191,6 +212,7 @@ def reference_catalog(ref, halo, part, tracers, params, enable_ranks, rsd):
     """Expected catalogue per tracer + ambiguity masks."""
     inv = 1.0 / params['velz2kms']
     lbox, origin = params['Lbox'], params['origin']
+    tracers = evolved(tracers, params['z'])
     ce = ref.cent_markers(halo, tracers)
     keepc, ambc = decide(halo['hrandoms'], ce)
     kcp = keepc[part['pinds']] if len(part['pinds']) else np.zeros(0, dtype=np.int8)
